@@ -245,6 +245,9 @@ Definition complete (leaf : str -> val -> bool) (t : ty) (v : val) : bool :=
   | _ => is_null v || complete_nn leaf t v
   end.
 
+(** the opaque TS type text standing for a custom scalar [n] (cannot collide with string/number/boolean) *)
+Definition atom_of (n : str) : str := s "scalar:" ++ n.
+
 Definition same_keys (a b : list str) : bool :=
   forallb (fun k => smem k b) a && forallb (fun k => smem k a) b.
 
@@ -253,7 +256,7 @@ Definition scalar_den (k : leaf_kind) (v : val) : bool :=
   | LString, VStr _ => true
   | LNumber, VNum => true
   | LBoolean, VBool _ => true
-  | LAtom n, VAtom a => str_eqb a n
+  | LAtom n, VAtom a => str_eqb a (atom_of n)
   | LEnum ms, VStr x => smem x ms
   | _, _ => false
   end.
@@ -352,7 +355,7 @@ Definition scalar_alts (k : leaf_kind) : list val :=
   | LString => [VStr (s "str")]
   | LNumber => [VNum]
   | LBoolean => [VBool true]
-  | LAtom n => [VAtom n]
+  | LAtom n => [VAtom (atom_of n)]
   | LEnum ms => map VStr ms
   | _ => []
   end.
@@ -394,7 +397,7 @@ Definition scalar_ts (n : str) : tstype :=
   if str_eqb n (s "String") || str_eqb n (s "ID") then TRaw (s "string")
   else if str_eqb n (s "Int") || str_eqb n (s "Float") then TRaw (s "number")
   else if str_eqb n (s "Boolean") then TRaw (s "boolean")
-  else TRaw n.
+  else TRaw (atom_of n).
 
 Definition decl_of (S : tsdoc) (d : typedef) : option tstype :=
   match d with
